@@ -21,6 +21,7 @@ pub fn run(ctx: &mut Ctx, prop: &str) {
         "C02" => c02(ctx),
         "C03" => c03(ctx),
         "C08" => c08(ctx),
+        "C09" => c09(ctx),
         "C10" => c10(ctx),
         "C11" => c11(ctx),
         "C19" => c19(ctx),
@@ -911,6 +912,149 @@ fn c11(ctx: &mut Ctx) {
         ctx.rep.case(&format!("{} lock-step: open + batch over 2 point labels, event logs vs model", c.desc()), Some(format!("hyrax-model/c11/{}/{}", nv, k)));
     }
     ctx.flush_model("C11-hyrax");
+}
+
+
+// ------------------------------------------------------------------------------------------------
+// C09: setup derives its generators from the protocol name; trim hands out the parameters
+// ------------------------------------------------------------------------------------------------
+
+/// the generator of counter `i`, re-derived here from the protocol name: Blake2s of `name ‖ i`,
+/// `from_random_bytes`, on failure Blake2s of `name ‖ i ‖ j` for `j = 0, 1, …`, cofactor cleared
+fn derive_generator(i: u64) -> G1Affine {
+    use blake2::{Blake2s256, Digest};
+    let name: &[u8] = b"Hyrax protocol";
+    let mut bytes = name.to_vec();
+    bytes.extend_from_slice(&i.to_le_bytes());
+    let mut p = G1Affine::from_random_bytes(&Blake2s256::digest(&bytes));
+    let mut j = 0u64;
+    while p.is_none() {
+        let mut b2 = bytes.clone();
+        b2.extend_from_slice(&j.to_le_bytes());
+        p = G1Affine::from_random_bytes(&Blake2s256::digest(&b2));
+        j += 1;
+    }
+    p.unwrap().mul_by_cofactor_to_group().into_affine()
+}
+
+fn c09(ctx: &mut Ctx) {
+    use ark_poly_commit::PolynomialCommitment;
+    use ark_std::rand::RngCore;
+    let mut nvs: Vec<Option<usize>> = vec![None, Some(0), Some(1), Some(2), Some(3), Some(4), Some(5), Some(6), Some(7), Some(8)];
+    if ctx.thorough {
+        nvs.extend([Some(9), Some(10), Some(12)]);
+    }
+    if ark_poly_commit::hyrax::PROTOCOL_NAME != b"Hyrax protocol" {
+        ctx.rep.expect_fail("C09/hyrax-setup/name", "hyrax/protocol-name", "PROTOCOL_NAME is not the documented seed", "# PROTOCOL_NAME\n".into());
+    }
+    for (i, nv) in nvs.iter().enumerate() {
+        let id = format!("C09/hyrax-setup/{}", i);
+        if !ctx.selected(&id) {
+            continue;
+        }
+        let mut rng = rng_for(ctx.seed, "C09/hyrax-setup", i as u64);
+        let rp = |what: &str| format!("# scheme: hyrax\n# case: {}\n# seed: {}\n# setup(num_vars = {:?})\n# {}\n# rerun: .build/cargo/debug/pcv-harness C09 --seed {} --only {}\n", id, ctx.seed, nv, what, ctx.seed, id);
+        let deg1 = range(&mut rng, 0, 64);
+        let res = guarded(|| Hx::setup(deg1, *nv, &mut rng));
+        let req = Req::new("hyrax.setup").arg("nv", wire::opt_nat(*nv));
+        let in_domain = matches!(nv, Some(n) if n % 2 == 0);
+        let pp = match res {
+            Ok(Ok(pp)) => pp,
+            Ok(Err(e)) => {
+                ctx.ses.ask(&id, req, ImplOutcome::Refuse(err_kind(&e)));
+                if in_domain {
+                    ctx.rep.expect_fail(&id, "hyrax/in-domain-setup-refused", &format!("setup refused an even number of variables: {}", err_kind(&e)), rp("in-domain setup refused"));
+                }
+                ctx.rep.case(&format!("hyrax setup nv={:?} refused", nv), Some(format!("hyrax-setup/{:?}", nv)));
+                continue;
+            }
+            Err(a) => {
+                ctx.ses.ask(&id, req, ImplOutcome::Refuse(a.clone()));
+                if in_domain {
+                    ctx.rep.expect_fail(&id, "hyrax/in-domain-setup-aborted", &format!("setup aborted on an even number of variables: {}", a), rp("in-domain setup aborted"));
+                }
+                ctx.rep.case(&format!("hyrax setup nv={:?} aborted", nv), Some(format!("hyrax-setup/{:?}", nv)));
+                continue;
+            }
+        };
+        let n = nv.unwrap_or(0);
+        if !in_domain {
+            ctx.rep.expect_fail(&id, "hyrax/out-of-domain-setup-answered", "setup answered a missing or odd number of variables", rp("out-of-domain setup answered"));
+        }
+        let dim = 1usize << (n / 2);
+        // the model says which counter every element is derived from; the elements must be the
+        // independently derived generators of those counters
+        ctx.ses.ask(&id, req, ImplOutcome::Ok(vec![
+            ("n".into(), Expect::Nat(pp.com_key.len())),
+            ("counters".into(), Expect::Nats((0..pp.com_key.len()).collect())),
+            ("hcounter".into(), Expect::Nat(dim)),
+        ]));
+        let mut all = pp.com_key.clone();
+        all.push(pp.h);
+        let derived: Vec<G1Affine> = (0..=dim as u64).map(derive_generator).collect();
+        if all != derived {
+            ctx.rep.expect_fail(&id, "hyrax/generators-not-derived-from-seed", "the published generators are not the hash-to-curve points of PROTOCOL_NAME ‖ counter (counters 0..dim for com_key, dim for h)", rp("generator derivation"));
+        }
+        let mut seen = std::collections::HashSet::new();
+        for g in &all {
+            if g.is_zero() || !g.is_on_curve() || !g.is_in_correct_subgroup_assuming_on_curve() {
+                ctx.rep.expect_fail(&id, "hyrax/generator-invalid", "a generator is the identity, off the curve or outside the prime-order subgroup", rp("generator validity"));
+            }
+            let mut b = vec![];
+            g.serialize_compressed(&mut b).unwrap();
+            if !seen.insert(b) {
+                ctx.rep.expect_fail(&id, "hyrax/generators-coincide", "two published generators coincide", rp("generator distinctness"));
+            }
+        }
+        // deterministic: another RNG, another degree argument, the same key
+        let mut rng2 = rng_for(ctx.seed ^ 0x5555, "C09/hyrax-setup/second", i as u64);
+        match guarded(|| Hx::setup(deg1 + 17, *nv, &mut rng2)) {
+            Ok(Ok(pp2)) if pp2.com_key == pp.com_key && pp2.h == pp.h => {}
+            _ => ctx.rep.expect_fail(&id, "hyrax/setup-not-deterministic", "two setups for the same number of variables disagree", rp("second setup")),
+        }
+        // trim hands out the parameters themselves, whatever it is asked
+        for (d, hb, bounds) in [(0usize, 0usize, None), (deg1, 1, Some(vec![1usize, 5])), (usize::MAX, 7, Some(vec![]))] {
+            match guarded(|| Hx::trim(&pp, d, hb, bounds.as_deref())) {
+                Ok(Ok((ck, vk))) if ck.com_key == pp.com_key && ck.h == pp.h && vk.com_key == pp.com_key && vk.h == pp.h => {}
+                _ => ctx.rep.expect_fail(&id, "hyrax/trim-not-faithful", &format!("trim({}, {}, {:?}) did not return the parameters as both keys", d, hb, bounds), rp("trim")),
+            }
+        }
+        // the key interoperates: commit / open / check of a polynomial in `n` variables; other numbers
+        // of variables are refused
+        let (ck, vk) = Hx::trim(&pp, 0, 0, None).unwrap();
+        for m in [n as isize - 2, n as isize, n as isize + 2] {
+            if m < 0 || m > 10 {
+                continue;
+            }
+            let m = m as usize;
+            let poly = LabeledPolynomial::new("p".to_string(), <ML as ark_poly::MultilinearExtension<Fr>>::rand(m, &mut rng), Some(1), None);
+            let r = guarded(|| Hx::commit(&ck, [&poly], Some(&mut rng as &mut dyn RngCore)));
+            match (m == n, &r) {
+                (true, Ok(Ok((coms, sts)))) => {
+                    let pt: Vec<Fr> = (0..n).map(|_| Fr::rand(&mut rng)).collect();
+                    let v = poly.polynomial().evaluate(&pt);
+                    let mut sp = LogSponge::fresh();
+                    let proof = guarded(|| Hx::open(&ck, [&poly], coms.iter(), &pt, &mut sp, sts.iter(), Some(&mut rng as &mut dyn RngCore)));
+                    let ok = match proof {
+                        Ok(Ok(pr)) => {
+                            let mut sv = LogSponge::fresh();
+                            matches!(guarded(|| Hx::check(&vk, coms.iter(), &pt, [v], &pr, &mut sv, None)), Ok(Ok(true)))
+                        }
+                        _ => false,
+                    };
+                    if !ok {
+                        ctx.rep.expect_fail(&id, "hyrax/setup-key-does-not-interoperate", "commit/open/check on the keys of setup+trim did not accept an honest opening", rp("interoperation"));
+                    }
+                }
+                (true, _) => ctx.rep.expect_fail(&id, "hyrax/setup-key-refuses-in-domain", "commit on the key of setup refused a polynomial in the key's number of variables", rp("in-domain commit")),
+                (false, Ok(Ok(_))) => ctx.rep.expect_fail(&id, "hyrax/other-nv-answered", &format!("a key for {} variables committed to a polynomial in {} variables", n, m), rp("out-of-domain commit")),
+                (false, _) => {}
+            }
+        }
+        ctx.rep.count(&format!("hyrax-setup/dim-{}", dim));
+        ctx.rep.case(&format!("hyrax setup nv={:?}: {} generators re-derived, distinct, valid; trim; interoperation", nv, dim + 1), Some(format!("hyrax-setup/{:?}", nv)));
+    }
+    ctx.flush_model("C09-hyrax");
 }
 
 // ------------------------------------------------------------------------------------------------
